@@ -121,19 +121,72 @@ Print Assumptions C10_n_evidence_counts.
 
 (** ** 4. the decidable spec evaluated on the implementation's output is sound, and the model satisfies it *)
 
+(** "the bounds" are the USER's bounds, parameter by parameter (GPyRegression.__init__ -> _within_bounds).
+    The box the surrogate stores does not depend on the order in which the keys of the bounds dict were written ... *)
+Theorem C10_box_order_independent :
+  forall names d d', List.NoDup (map fst d) -> Permutation.Permutation d d' -> box_of names d = box_of names d'.
+Proof. exact box_of_perm. Qed.
+Print Assumptions C10_box_order_independent.
+
+(** ... its coordinate i is the interval the dict binds to parameter_names[i] (one parameter: the only interval) ... *)
+Theorem C10_box_by_name :
+  forall names d bs, box_of names d = Some bs ->
+    length bs = length names /\
+    (length names <> 1%nat ->
+     forall i n, nth_error names i = Some n -> exists iv, lookup d n = Some iv /\ nth_error bs i = Some iv) /\
+    (length names = 1%nat -> bs = map snd d).
+Proof. exact box_of_by_name. Qed.
+Print Assumptions C10_box_by_name.
+
+(** ... so the coded bounds test on that box accepts x iff EVERY parameter's coordinate lies in the closed interval
+    the user gave for that parameter's NAME ... *)
+Theorem C10_within_bounds_by_name :
+  forall names d b x, box_of names d = Some b -> length names <> 1%nat -> length x = length names ->
+    (within_bounds x b = true <->
+     forall i n xi lo hi, nth_error names i = Some n -> nth_error x i = Some xi -> lookup d n = Some (lo, hi) ->
+                          lo <= xi /\ xi <= hi).
+Proof. exact within_bounds_named. Qed.
+Print Assumptions C10_within_bounds_by_name.
+
+(** ... and the model's log density and gradient are the same for every key order of the dict. *)
+Theorem C10_posterior_order_independent :
+  forall names d d' t r, List.NoDup (map fst d) -> Permutation.Permutation d d' ->
+    forall b b', box_of names d = Some b -> box_of names d' = Some b' ->
+      logpdf_row b r = logpdf_row b' r /\ gradpdf_row b t r = gradpdf_row b' t r.
+Proof. exact posterior_order_independent. Qed.
+Print Assumptions C10_posterior_order_independent.
+
+(** The decidable spec on the implementation's output, read by parameter NAME: a row with some parameter outside
+    the interval the dict gives for its name has logpdf -inf; a row with every parameter inside its own interval
+    has logpdf = log Phi + log prior and the chain-rule gradient (within tol) -- [named_row_prop]. *)
 Theorem C10_ok_sound :
   forall c, ok c = true ->
     match c with
     | PostCase p =>
         length (pc_impl_logpdf p) = length (pc_rows p) /\ length (pc_impl_grad p) = length (pc_rows p) /\
         forall i r lp g, nth_error (pc_rows p) i = Some r -> nth_error (pc_impl_logpdf p) i = Some lp ->
-                         nth_error (pc_impl_grad p) i = Some g -> row_prop (pc_bounds p) (pc_t p) r lp g
+                         nth_error (pc_impl_grad p) i = Some g ->
+                         named_row_prop (pc_names p) (pc_dict p) (pc_t p) r lp g
     | EvCase e =>
         map fst (ec_snaps e) = map rows_of (run_updates None (ec_batches e))
         /\ List.Forall (fun s => length (fst s) = snd s) (ec_snaps e)
     end.
-Proof. intros c H; destruct c as [p|e]. - exact (rows_ok_sound _ _ _ _ _ H). - exact (ev_ok_sound _ H). Qed.
+Proof. intros c H; destruct c as [p|e]. - exact (post_ok_sound _ H). - exact (ev_ok_sound _ H). Qed.
 Print Assumptions C10_ok_sound.
+
+(** The model's own output (its box = [box_of parameter_names dict]) passes that by-name spec for every key order. *)
+Theorem C10_model_ok_by_name :
+  forall names d b t dim rows,
+    box_of names d = Some b -> length names <> 1%nat -> length names = dim ->
+    List.Forall (fun r => length (r_x r) = dim) rows ->
+    List.Forall (fun r => o_var (r_orc r) == o_sd (r_orc r) * o_sd (r_orc r) /\ ~ o_sd (r_orc r) == 0) rows ->
+    forall ndim ibs ill igl,
+    ok (PostCase {| pc_dim := dim; pc_ndim := ndim; pc_names := names; pc_dict := d; pc_impl_bounds := ibs; pc_t := t;
+               pc_rows := rows; pc_impl_ll := ill; pc_impl_gl := igl;
+               pc_impl_logpdf := map (fun r => to_obs (logpdf_row b r)) rows;
+               pc_impl_grad := map (fun r => map Some (gradpdf_row b t r)) rows |}) = true.
+Proof. exact post_model_ok. Qed.
+Print Assumptions C10_model_ok_by_name.
 
 Theorem C10_model_ok :
   (forall b t rows,
@@ -149,6 +202,17 @@ Print Assumptions C10_model_ok.
 Example C10_example_bounds :
   within_bounds [1; 3#2] [(0, 1); (1, 2)] = true /\ within_bounds [1; 5#2] [(0, 1); (1, 2)] = false
   /\ outside [1; 5#2] [(0, 1); (1, 2)] = true.
+Proof. vm_compute. repeat split. Qed.
+
+(** a bounds dict written in another key order than parameter_names, with different intervals: the box is by name;
+    (3/2, 1/2) is inside the user's box (a in [0,2], b in [-1,1]) and would be outside the positional one *)
+Example C10_example_named_box :
+  let a := String.String (Ascii.ascii_of_nat 97) String.EmptyString in
+  let b := String.String (Ascii.ascii_of_nat 98) String.EmptyString in
+  box_of [a; b] [(b, (-(1), 1)); (a, (0, 2))] = Some [(0, 2); (-(1), 1)]
+  /\ box_of [a; b] [(a, (0, 2)); (b, (-(1), 1))] = Some [(0, 2); (-(1), 1)]
+  /\ within_bounds [3#2; 1#2] [(0, 2); (-(1), 1)] = true /\ within_bounds [3#2; 1#2] [(-(1), 1); (0, 2)] = false
+  /\ box_of [a; b] [(a, (0, 2))] = None.
 Proof. vm_compute. repeat split. Qed.
 
 Example C10_example_evidence :
